@@ -593,3 +593,24 @@ VARIANTS += [
  dict(name='benign-inner-method-after-nil-check', expect='silent', edits=_inner_after_nil_check()),
  dict(name='inner-method-entry-passes-with-both-nil', expect='flagged(result/both-validators-nil)', edits=_inner_after_nil_check(keep_check=False)),
 ]
+
+# class P: how the two receiver fields are tested — held in locals, or by a predicate helper (decided by evaluating the
+# helper with both fields nil)
+_BOTH_NIL_IF = '\tif v.revocationCodeSigningValidator == nil && v.revocationClient == nil {\n'
+def _predicate(body='return recv.revocationCodeSigningValidator != nil || recv.revocationClient != nil', test='!v.canCheckRevocation()'):
+    return [(V, _BOTH_NIL_IF, '\tif %s {\n' % test),
+            (V, _ANCHOR, "func (recv *verifier) canCheckRevocation() bool {\n\t" + body + "\n}\n\n" + _ANCHOR)]
+
+VARIANTS += [
+ dict(name='benign-validators-held-in-locals', expect='silent',
+      edits=[(V, _BOTH_NIL_IF, '\tcodeSigning, deprecated := v.revocationCodeSigningValidator, v.revocationClient\n\tif codeSigning == nil && deprecated == nil {\n'),
+             (V, '\tif v.revocationCodeSigningValidator != nil {\n\t\tcertResults, err = v.revocationCodeSigningValidator.ValidateContext(', '\tif codeSigning != nil {\n\t\tcertResults, err = codeSigning.ValidateContext('),
+             (V, '\t\tcertResults, err = v.revocationClient.Validate(outcome.', '\t\tcertResults, err = deprecated.Validate(outcome.')]),
+ dict(name='benign-nil-check-by-predicate-helper', expect='silent', edits=_predicate(),
+      why='the helper is evaluated with both fields nil: it can only return false'),
+ dict(name='benign-nil-check-by-negative-predicate-helper', expect='silent',
+      edits=_predicate(body='if recv.revocationCodeSigningValidator != nil {\n\t\treturn false\n\t}\n\treturn recv.revocationClient == nil', test='v.canCheckRevocation()')),
+ dict(name='predicate-helper-looks-at-one-field-only', expect='flagged(result/both-validators-nil)',
+      edits=_predicate(body='return recv.revocationCodeSigningValidator != nil || recv.revocationTimestampingValidator != nil')),
+ dict(name='predicate-helper-result-inverted', expect='flagged(result/both-validators-nil)', edits=_predicate(test='v.canCheckRevocation()')),
+]
